@@ -14,6 +14,11 @@ THEOREMS = [_P + n for n in [
     "timedelta_roundtrip", "timedelta_option_roundtrip", "wrong_type_rejected_float", "wrong_type_rejected_float_option",
     "float_roundtrip", "float_option_roundtrip", "parseFloat_showDec", "datetime_roundtrip", "parseDatetime_iso",
     "unset_keep_default_config", "bool_flag_no_value", "wrong_type_rejected_timedelta", "wrong_type_rejected_datetime",
+    # loop / run level (review finding S2): command line and config file -> stored value
+    "lookup_update_self", "cmdline_step", "cmdline_step_error", "config_step_parse", "config_step_set", "config_step_error", "config_step_set_error",
+    "set_ok", "set_ok_list", "parse_denotes", "cmdline_sets", "config_sets_parsed", "config_sets_typed",
+    "cmdline_yields_denoted", "config_yields_denoted", "config_yields_typed", "cmdline_rejects", "config_rejects",
+    "define_lookup", "e2e_int_cmdline",
 ]]
 TRUSTED = [
     "CPython int(str) / float(str) grammar on ASCII text, str.partition/split/lstrip/lower/replace, re on _TIMEDELTA_PATTERN, "
@@ -36,6 +41,16 @@ RULE = ("parsers with 1-5 generated options (all six types, multiple or not, wit
         "non-trivial = at least one option value changed or an error was raised; distinct by canonical JSON")
 EXHAUSTIVE = {"quick": False, "thorough": False}
 CLAUSES = {
+    "parsing a COMMAND LINE or CONFIG FILE that sets it ... yields that value (from the argument list / item list to the stored value)":
+        "cmdline_yields_denoted (run level, every type: step st (cmdline [prog, -..-name=text]) returns normally, lookup(normalize name).get = the "
+        "denoted value, all other options unchanged; any number >= 1 of leading dashes, any name without '=' / leading '-'), "
+        "config_yields_denoted (name = \"text\" in a config file, every type, incl. the str -> parse / plain-str -> set dispatch), "
+        "config_yields_typed (name = <object of the option's type>); with further arguments / assignments: cmdline_sets, config_sets_parsed, "
+        "config_sets_typed (the option holds the parsed value whatever the later ones do, unless they name it again); plumbing: cmdline_step, "
+        "config_step_parse, config_step_set, set_ok, set_ok_list, lookup_update_self; hypotheses reachable: define_lookup, e2e_int_cmdline "
+        "(from the initial parser, all n). `Denotes` = exactly the textual forms of the per-type rows below (parse_denotes); "
+        "texts outside `Denotes`, typed list values for multiple options at run level (set_ok_list is option level), "
+        "several parse operations in sequence: tie only",
     "parsing a textual form yields that value (int)": "int_roundtrip, int_option_roundtrip (all n : Int)",
     "multiple values and integer ranges": "int_list_roundtrip (all non-empty item lists, ranges inclusive)",
     "bool": "bool_roundtrip, bool_partial (six words, any letter case); flag without value: bool_flag_no_value",
@@ -47,8 +62,11 @@ CLAUSES = {
                        "valid date/time); the other nine datetime formats, inf/nan and underscore spellings: tie only",
     "unset options keep their defaults": "unset_keep_default (command line), unset_keep_default_config (config file)",
     "unknown command-line options are rejected": "unknown_option_rejected",
-    "values of the wrong type are rejected": "wrong_type_rejected_int, wrong_type_rejected_config; float: wrong_type_rejected_float, "
-                                             "wrong_type_rejected_float_option; "
+    "values of the wrong type are rejected": "loop/run level: cmdline_rejects, config_rejects (a failing _Option.parse / set makes parse_command_line / "
+                                             "parse_config_file raise that error; cmdline_step_error, config_step_error); option level: "
+                                             "wrong_type_rejected_int, wrong_type_rejected_config; float: wrong_type_rejected_float, "
+                                             "wrong_type_rejected_float_option (int/float: only texts containing a character outside the literal alphabet; "
+                                             "malformed texts made of admissible characters — '', '1__0', '+-1', '1 2', '_1', '1e', '1_.5', '._5', '--1' — tie only); "
                                              "datetime: wrong_type_rejected_datetime (any character outside digits/letters/whitespace/-/:); timedelta: "
                                              "wrong_type_rejected_timedelta (text not starting with a number); other malformed dates/durations: tie only; bool: bool_wrong_type_full is refuted (bool_wrong_type_refuted) — known finding D18",
 }
@@ -347,6 +365,13 @@ def ident(name):
     return name.replace("-", "_")
 
 
+def _neg_zero(v):
+    """-0.0 cannot be handed to the model as an exact fraction p/q (the sign is lost)"""
+    if v[0] == "l":
+        return any(_neg_zero(x) for x in v[1])
+    return v[0] == "f" and v[1].startswith("-") and float.fromhex(v[1]) == 0.0
+
+
 def _setting(rng, ty, multiple):
     """-> (text, expected canonical value | None when the text is from the random stream, form label)"""
     if multiple and ty == "int":
@@ -354,11 +379,12 @@ def _setting(rng, ty, multiple):
         return items_text(items), ["l", [["i", x] for x in items_denote(items)]], "items", {"items": items}
     if multiple:
         parts = [_setting(rng, ty, False) for _ in range(rng.randrange(1, 4))]
-        if any("," in p[0] for p in parts) or ty == "bool":
+        if any("," in p[0] for p in parts):
             parts = parts[:1]
-            if "," in parts[0][0] or ty == "bool":
+            if "," in parts[0][0]:
                 return None
-        return ",".join(p[0] for p in parts), ["l", [p[1] for p in parts]], "multi", {}
+        # a multiple bool option stores range(lo, hi + 1), i.e. ints 1/0 == True/False: the oracle compares them as Python does
+        return ",".join(p[0] for p in parts), ["l", [p[1] for p in parts]], "multi-bool" if ty == "bool" else "multi", {}
     if ty == "int":
         n = g_int(rng)
         t, form = int_form(rng, n)
@@ -486,7 +512,7 @@ def _case(rng):
             items = []
             for nm, text, exp, form, extra in settings:
                 ty, mult = defs[nm]
-                if exp not in (None, "ERR") and rng.random() < 0.35 and ty != "float":
+                if exp not in (None, "ERR") and rng.random() < 0.35 and not _neg_zero(exp):
                     items.append([ident(nm), exp])        # typed value set directly
                 else:
                     items.append([ident(nm), ["s", text]])
@@ -652,6 +678,13 @@ def spec_requests(case, impl):
     return reqs
 
 
+def _pyeq(v, form):
+    """multiple bool options hold ints 1/0, which Python compares equal to True/False: identify them (only there)"""
+    if form == "multi-bool" and isinstance(v, list) and v and v[0] == "l":
+        return ["l", [["b", bool(x[1])] if x[0] == "i" and x[1] in (0, 1) else x for x in v[1]]]
+    return v
+
+
 def spec_violation(case, impl, replies):
     meta = case["meta"]
     outs = impl["outs"]
@@ -688,7 +721,7 @@ def spec_violation(case, impl, replies):
         return None if meta["stream"] == "random" or any(op[0] == "define" and o == "Error" for op, o in zip(case["ops"], outs)) \
             else "valid input was rejected with %s" % errs[0]
     for key, e in case["expect"].items():
-        if vals.get(key) != e["value"]:
+        if _pyeq(vals.get(key), e["form"]) != _pyeq(e["value"], e["form"]):
             return "option %s: text %r (%s) denotes %r but parsed to %r" % (key, e["text"], e["form"], e["value"], vals.get(key))
     # unset options keep their defaults
     touched = set()
